@@ -60,6 +60,10 @@ def items(tier: str, seed: int) -> list[dict]:
         add(max_examples=n, e=0)
         add(max_examples=n, workers=1, behaviour="fail:/b", e=0)
     add(max_examples=2, e=e)  # stop / Ctrl-C points
+    # a stop in the middle of an operation that still has several examples to go (>= 2 requests would follow)
+    # (needs a pre-emption - the consumer runs while the worker is between two requests - AND the stop: 2 deviations)
+    out.extend(ee.sharded({"doc": "unit2", "phases": ["fuzzing"], "workers": 1, "max_failures": None, "cof": False, "behaviour": "ok",
+                           "fault": None, "p": 1, "e": 1, "max_examples": 4, "unique": False, "total": 2, "ctrl_c": False}, 8))
     add(max_examples=2, workers=1, e=e)
     add(max_examples=1, behaviour="all500", e=e)
     for steps in b["steps"]:
